@@ -284,6 +284,23 @@ pub fn traces() -> Vec<Trace> {
         seq.extend(y.iter().cloned());
         v.push(Trace { name: format!("two-connections/{n}/sequential"), frames: seq });
     }
+    // Ethernet frames whose EtherType and IP version nibble disagree (EtherType IPv4 with nibble 5, 6, 0, 15; EtherType IPv6
+    // with nibble 4, 7): every parser of the repository goes by the EtherType - a filter that goes by the nibble reads other
+    // endpoints, or none and lets the frame pass
+    for (v6, nibbles) in [(false, [5u8, 6, 0, 15]), (true, [4, 7, 0, 15])] {
+        for nib in nibbles {
+            for sport in [80u16, 443] {
+                let (ci, si) = if v6 { (104usize, 120usize) } else { (8, 40) };
+                let c = crate::props::c10::Ep { port: 40030 + nib as u16, ..eps[ci] };
+                let sv = crate::props::c10::Ep { port: sport, ..eps[si] };
+                let mut conn = vec![fb(&c, &sv, SYN, 1000, &[], true), fb(&sv, &c, SYN | ACK, 5000, &[], true), fb(&c, &sv, ACK | PSH, 1001, if sport == 443 { &hello } else { &req }, true), fb(&sv, &c, ACK | PSH, 5001, &resp, true)];
+                for f in conn.iter_mut() {
+                    f[14] = (f[14] & 0x0f) | (nib << 4);
+                }
+                v.push(Trace { name: format!("version-nibble-mismatch/{}-nibble{nib}-port{sport}/connection", if v6 { "v6" } else { "v4" }), frames: conn });
+            }
+        }
+    }
     v
 }
 
